@@ -18,9 +18,28 @@ re-parsing the text of an embedded object — is the parameter `emb` (tied off b
 which counts embedded nesting depth).
 Every error the code raises as CIMXMLParseError is `.error .cimXmlParseError`; the places where the
 code lets another exception class escape are modelled with that class.
+
+Constructor side.  The parse_* functions build the result with the constructors of pywbem/_cim_obj.py and turn
+their ValueError / TypeError into CIMXMLParseError; the checks and normalisations reachable from a tupletree are
+modelled where the constructor is called:
+  mirrors pywbem/_cim_obj.py: CIMInstanceName.keybindings setter + _cim_keybinding (a None value and a
+    CIMClassName value are rejected; `kbs.update` by exact key, then NocaseDict by case-insensitive key),
+    CIMInstanceName / CIMClassName namespace setter (`strip('/')`), CIMProperty / CIMParameter type setter
+    (ALL_CIMTYPES), CIMQualifier / CIMQualifierDeclaration type setter (QUALIFIER_CIMTYPES), CIMMethod
+    return_type setter (ALL_CIMTYPES without 'reference'), _check_embedded_object (value 'instance'/'object',
+    type 'string'), CIMQualifierDeclaration.__init__ (_check_array_parms / _infer_is_array)
+  not reachable from a tupletree (check_node admits only VALUE under PROPERTY and only VALUE.ARRAY under
+    PROPERTY.ARRAY; parse_embeddedObject has made every string an object): _check_array_parms of CIMProperty,
+    the value checks of _check_embedded_object, reference_class on an array property.
+
+Value-space limit: an array size is a `Nat` (CimObj.lean); `ARRAYSIZE="-1"` (int() accepts it, pywbem stores -1)
+is outside the model — the correspondence streams skip trees with a negative ARRAYSIZE.
+`decodeTop` covers the element kinds `tocimxml()` produces at top level; other top-level elements that
+`parse_any` accepts (VALUE, KEYVALUE, HOST, NAMESPACE, VALUE.OBJECT, message elements …) are outside the model.
 -/
 import Pywbem.Model.CimXmlEnc
 import Pywbem.Proto
+import Pywbem.Generated.CimTypes
 
 namespace Pywbem.Model
 open Pywbem.Model.XmlText Pywbem.Proto
@@ -147,6 +166,12 @@ def unpackChar16 (data : Str) : R Atom :=
 def numericTypeName (ty : Str) : Bool :=
   (IntTy.ofName ty).isSome || ty = "real32".toList || ty = "real64".toList
 
+/-- `type in ALL_CIMTYPES` (type setter of CIMProperty / CIMParameter) -/
+def cimTypeOk (ty : Str) : Bool := Pywbem.Generated.allCimTypes.any (fun t => t.toList == ty)
+
+/-- `type in QUALIFIER_CIMTYPES` (type setter of CIMQualifier / CIMQualifierDeclaration) -/
+def qualTypeOk (ty : Str) : Bool := Pywbem.Generated.qualifierCimTypes.any (fun t => t.toList == ty)
+
 /-- `unpack_single_value(data, cimtype)` for `data` not None -/
 def unpackSingle (C : DecCodec) (data : Str) (cimtype : Option Str) : R Atom :=
   match cimtype with
@@ -259,13 +284,40 @@ def decValueText (t : Xml) : R Str := do
   let (_, ks) ← checkNode t "VALUE" [] [] (some []) true
   pure (Xml.pcdata ks)
 
-/-- insert/replace in a keybinding dict (`kbs.update`, then NocaseDict: case-insensitive key) -/
+/-- `kbs.update(key_bind)` of parse_instancename: a plain dict, exact key; the value is replaced in place -/
+def kbUpdate (k : Key) : List Key → List Key
+  | [] => [k]
+  | (.mk n v) :: rest =>
+    match k with
+    | .mk n' v' => if n = n' then .mk n v' :: rest else .mk n v :: kbUpdate k rest
+
+/-- NocaseDict insertion of the CIMInstanceName keybindings setter: case-insensitive key; key and value are
+    replaced in place -/
 def kbInsert (k : Key) : List Key → List Key
   | [] => [k]
   | (.mk n v) :: rest =>
     match k with
     | .mk n' v' =>
-      if (n.map lowerAscii) = (n'.map lowerAscii) then .mk n v' :: rest else .mk n v :: kbInsert k rest
+      if (n.map lowerAscii) = (n'.map lowerAscii) then .mk n' v' :: rest else .mk n v :: kbInsert k rest
+
+/-- `namespace.strip('/')` of the CIMInstanceName / CIMClassName namespace setters -/
+def nsStrip (s : Str) : Str :=
+  ((s.dropWhile (fun c => c = '/')).reverse.dropWhile (fun c => c = '/')).reverse
+
+/-- what the keybindings setter and `_cim_keybinding` accept of the values the parser can produce: not None
+    (ValueError, IGNORE_NULL_KEY_VALUE is False), not a CIMClassName (TypeError) -/
+def keyValueOk : Atom → Bool
+  | .null => false
+  | .ref (.cls ..) => false
+  | _ => true
+
+def keysOk : List Key → Bool
+  | [] => true
+  | .mk _ v :: rest => keyValueOk v && keysOk rest
+
+/-- `CIMInstanceName(classname, kbs)` as called by parse_instancename -/
+def mkInstanceName (cls : Str) (kbs : List Key) : R Path :=
+  if keysOk kbs then pure (.inst cls none none (kbs.foldl (fun acc k => kbInsert k acc) [])) else perr
 
 /-- parse_keyvalue -/
 def decKeyValue (t : Xml) : R Atom := do
@@ -379,15 +431,15 @@ def decInstanceName (t : Xml) : R Path := do
         if k0.name = "KEYVALUE".toList then
           (if elemCount ks ≠ 1 then perr else do
             let v ← decKeyValue C k0
-            pure (.inst cls none none [.mk none v]))
+            mkInstanceName cls [.mk none v])
         else if k0.name = "VALUE.REFERENCE".toList then
           (if elemCount ks ≠ 1 then perr else do
             match (← decValueRefKids ks) with
-            | [p] => pure (.inst cls none none [.mk none (.ref p)])
+            | [p] => mkInstanceName cls [.mk none (.ref p)]
             | _ => perr)
         else if k0.name = "KEYBINDING".toList then do
           let kbs ← decKeybindings ks
-          pure (.inst cls none none (kbs.foldl (fun acc k => kbInsert k acc) []))
+          mkInstanceName cls (kbs.foldl (fun acc k => kbUpdate k acc) [])
         else perr
 
 /-- parse every INSTANCENAME element child (other children skipped) -/
@@ -419,7 +471,7 @@ def decPathAny (t : Xml) : R Path := do
         let ns ← decLocalNsPath l
         if i.name ≠ "INSTANCENAME".toList then perr
         else match (← decInstNameKids ks) with
-          | [p] => pure (p.withNs none (some ns))
+          | [p] => pure (p.withNs none (some (nsStrip ns)))
           | _ => perr
       | _ => perr
     else if n = "INSTANCEPATH".toList then
@@ -428,7 +480,7 @@ def decPathAny (t : Xml) : R Path := do
         let (host, ns) ← decNsPath l
         if i.name ≠ "INSTANCENAME".toList then perr
         else match (← decInstNameKids ks) with
-          | [p] => pure (p.withNs (some host) (some ns))
+          | [p] => pure (p.withNs (some host) (some (nsStrip ns)))
           | _ => perr
       | _ => perr
     else if n = "LOCALCLASSPATH".toList then
@@ -436,14 +488,14 @@ def decPathAny (t : Xml) : R Path := do
       | [l, c] => do
         let ns ← decLocalNsPath l
         let cn ← decClassName c
-        pure (.cls cn none (some ns))
+        pure (.cls cn none (some (nsStrip ns)))
       | _ => perr
     else if n = "CLASSPATH".toList then
       match Xml.elemKids ks with
       | [l, c] => do
         let (host, ns) ← decNsPath l
         let cn ← decClassName c
-        pure (.cls cn (some host) (some ns))
+        pure (.cls cn (some host) (some (nsStrip ns)))
       | _ => perr
     else perr
 end
@@ -509,28 +561,38 @@ def unpackValue (ty : Str) (ks : List Xml) : R Val := do
     pure (.array items)
   | _ => perr
 
+/-- `parse_embeddedObject(val)` for one non-list value: None stays None, a string (Char16 is a `str`) is
+    parsed, anything else is rejected ('Embedded object value must be a string') -/
+def embOne : Atom → R Atom
+  | .null => pure .null
+  | .str s => emb s
+  | .char16 s => emb s
+  | _ => perr
+
 /-- `parse_embeddedObject(val)` applied to an unpacked string value / list -/
 def embItems : List Atom → R (List Atom)
   | [] => pure []
-  | .str s :: rest => do
-    let a ← emb s
+  | a :: rest => do
+    let x ← embOne emb a
     let r ← embItems rest
-    pure (a :: r)
-  | .null :: rest => do
-    let r ← embItems rest
-    pure (.null :: r)
-  | _ :: _ => perr                               -- 'Embedded object value must be a string'
+    pure (x :: r)
 
 def embVal (v : Val) : R Val :=
   match v with
   | .null => pure .null
-  | .scalar (.str s) => do
-    let a ← emb s
-    pure (.scalar a)
-  | .scalar _ => perr                            -- 'Embedded object value must be a string'
+  | .scalar a => do
+    let x ← embOne emb a
+    pure (.scalar x)
   | .array l => do
     let r ← embItems emb l
     pure (.array r)
+
+/-- `_check_embedded_object` as far as a tupletree can fail it: the attribute value (when not empty) must be
+    'instance' or 'object' and the type 'string' -/
+def embAttrOk (embA : Option Str) (ty : Str) : Bool :=
+  match embA with
+  | some (c :: cs) => ((c :: cs) = "instance".toList || (c :: cs) = "object".toList) && ty = "string".toList
+  | _ => true
 
 /-- NocaseDict insertion of a named element: replace in place on a case-insensitively equal name -/
 def dictInsert {α} (nameOf : α → Str) (x : α) : List α → List α
@@ -556,7 +618,8 @@ def decQualifier (t : Xml) : R Qual := do
   let tosubclass ← boolAttrOf as "TOSUBCLASS" "true"
   let toinstance ← boolAttrOf as "TOINSTANCE" "false"
   let translatable ← boolAttrOf as "TRANSLATABLE" "false"
-  pure (.mk (getAttrD as "NAME" "") ty value propagated overridable tosubclass toinstance translatable)
+  if !qualTypeOk ty then perr              -- CIMQualifier type setter
+  else pure (.mk (getAttrD as "NAME" "") ty value propagated overridable tosubclass toinstance translatable)
 
 /-- `list_of_matching(tup_tree, ('QUALIFIER',))` -/
 def decQualifiers : List Xml → R (List Qual)
@@ -582,8 +645,9 @@ def decProperty (t : Xml) : R Prop_ := do
   let embA := embAttrOf as
   let embOn := match embA with | some (_ :: _) => true | _ => false
   let val ← if embOn then embVal emb val else pure val
-  pure (.mk (getAttrD as "NAME" "") ty val false none none origin propagated
-    (if embOn then embA else none) (dictOfList Qual.name quals))
+  if !embAttrOk embA ty then perr               -- _check_embedded_object
+  else if !cimTypeOk ty then perr               -- CIMProperty type setter
+  else pure (.mk (getAttrD as "NAME" "") ty val false none none origin propagated embA (dictOfList Qual.name quals))
 
 /-- parse_property_array -/
 def decPropertyArray (t : Xml) : R Prop_ := do
@@ -599,8 +663,9 @@ def decPropertyArray (t : Xml) : R Prop_ := do
   let embA := embAttrOf as
   let embOn := match embA with | some (_ :: _) => true | _ => false
   let val ← if embOn then embVal emb val else pure val
-  pure (.mk (getAttrD as "NAME" "") ty val true asz none origin propagated
-    (if embOn then embA else none) (dictOfList Qual.name quals))
+  if !embAttrOk embA ty then perr               -- _check_embedded_object
+  else if !cimTypeOk ty then perr               -- CIMProperty type setter
+  else pure (.mk (getAttrD as "NAME" "") ty val true asz none origin propagated embA (dictOfList Qual.name quals))
 
 /-- `list_of_matching(tup_tree, ('VALUE.REFERENCE',))` -/
 def decValueRefs : List Xml → R (List Path)
@@ -664,7 +729,8 @@ def decParameter (t : Xml) : R Param := do
     if n = "PARAMETER".toList then do
       let (as, ks) ← checkNode t "PARAMETER" ["NAME", "TYPE"] [] (some ["QUALIFIER"]) false
       let quals ← decQualifiers C ks
-      pure (.mk (getAttrD as "NAME" "") (getAttrD as "TYPE" "") none false none (dictOfList Qual.name quals) .null none)
+      if !cimTypeOk (getAttrD as "TYPE" "") then perr      -- CIMParameter type setter
+      else pure (.mk (getAttrD as "NAME" "") (getAttrD as "TYPE" "") none false none (dictOfList Qual.name quals) .null none)
     else if n = "PARAMETER.REFERENCE".toList then do
       let (as, ks) ← checkNode t "PARAMETER.REFERENCE" ["NAME"] ["REFERENCECLASS"] (some ["QUALIFIER"]) false
       let quals ← decQualifiers C ks
@@ -674,7 +740,8 @@ def decParameter (t : Xml) : R Param := do
       let (as, ks) ← checkNode t "PARAMETER.ARRAY" ["NAME", "TYPE"] ["ARRAYSIZE"] (some ["QUALIFIER"]) false
       let asz ← arraySizeOf as
       let quals ← decQualifiers C ks
-      pure (.mk (getAttrD as "NAME" "") (getAttrD as "TYPE" "") none true asz (dictOfList Qual.name quals) .null none)
+      if !cimTypeOk (getAttrD as "TYPE" "") then perr      -- CIMParameter type setter
+      else pure (.mk (getAttrD as "NAME" "") (getAttrD as "TYPE" "") none true asz (dictOfList Qual.name quals) .null none)
     else if n = "PARAMETER.REFARRAY".toList then do
       let (as, ks) ← checkNode t "PARAMETER.REFARRAY" ["NAME"] ["REFERENCECLASS", "ARRAYSIZE"] (some ["QUALIFIER"]) false
       let asz ← arraySizeOf as
@@ -703,7 +770,8 @@ def decMethod (t : Xml) : R Meth := do
   let quals ← decQualifiers C ks
   match Xml.attr as "TYPE".toList with
   | some (c :: cs) =>
-    pure (.mk (getAttrD as "NAME" "") (some (c :: cs)) (dictOfList Param.name params) origin propagated
+    if !cimTypeOk (c :: cs) || (c :: cs) = "reference".toList then perr     -- CIMMethod return_type setter
+    else pure (.mk (getAttrD as "NAME" "") (some (c :: cs)) (dictOfList Param.name params) origin propagated
       (dictOfList Qual.name quals))
   | _ => perr
 
@@ -737,6 +805,19 @@ def decScopeAttrs : List (Str × Str) → R (List (Str × Bool))
       let r ← decScopeAttrs rest
       pure ((k, b) :: r)
 
+/-- `_check_array_parms(is_array, …, value)`: only when ISARRAY gave a boolean (an empty ISARRAY gives None) -/
+def qdArrayOk (isArray : Option Bool) (v : Val) : Bool :=
+  match isArray, v with
+  | some true, .scalar _ => false
+  | some false, .array _ => false
+  | _, _ => true
+
+/-- `is_array`, inferred from the value (`_infer_is_array`) when ISARRAY gave None -/
+def qdIsArray (isArray : Option Bool) (v : Val) : Bool :=
+  match isArray with
+  | some b => b
+  | none => match v with | .array _ => true | _ => false
+
 /-- parse_qualifier_declaration -/
 def decQualDecl (t : Xml) : R QualDecl := do
   let (as, ks) ← checkNode t "QUALIFIER.DECLARATION" ["NAME", "TYPE"]
@@ -759,9 +840,11 @@ def decQualDecl (t : Xml) : R QualDecl := do
   let tosubclass ← boolAttrOf as "TOSUBCLASS" "true"
   let toinstance ← boolAttrOf as "TOINSTANCE" "false"
   let translatable ← boolAttrOf as "TRANSLATABLE" "false"
-  pure { name := getAttrD as "NAME" "", ty := ty, val := value, isArray := isArray.getD false, arraySize := asz,
-         scopes := scopes, overridable := overridable, tosubclass := tosubclass, toinstance := toinstance,
-         translatable := translatable }
+  if !qdArrayOk isArray value then perr         -- CIMQualifierDeclaration.__init__: _check_array_parms
+  else if !qualTypeOk ty then perr         -- CIMQualifierDeclaration type setter
+  else pure { name := getAttrD as "NAME" "", ty := ty, val := value, isArray := qdIsArray isArray value,
+              arraySize := asz, scopes := scopes, overridable := overridable, tosubclass := tosubclass,
+              toinstance := toinstance, translatable := translatable }
 
 /-- `parse_any` restricted to the element kinds `tocimxml()` produces at top level; the tuple
     `(name, attrs, object)` returned for VALUE.OBJECTWITHLOCALPATH is unwrapped to its object -/
